@@ -19,6 +19,13 @@ from . import batcherworld as bw
 from . import bufferworld as fw
 
 Q = 1.0 / 64
+# verdicts of the C08 / C10 / C11 oracles that say "an option did not take effect with the value given"
+OPTION_EFFECTS = {
+    'batcher.oversize', 'batcher.split_burst',                           # max_batch_size (and batch_timeout)
+    'batcher.concurrency', 'batcher.late_dispatch',                      # max_concurrent_batches, batch_timeout
+    'batcher.stale_result', 'batcher.recomputed_in_window', 'batcher.work_count',     # retention_timeout
+    'buffer.early_call', 'buffer.burst_never_called', 'buffer.burst_split', 'buffer.burst_call_count',     # timeout
+}
 
 
 def _w(rng, pairs):
@@ -484,6 +491,8 @@ def execute(prog, sspec):
                                'features': {'which': prog['which'], 'form': f}})
             break
     for v in extra:
+        if v['oracle'] not in OPTION_EFFECTS:
+            continue        # a clause of C08/C10/C11 that no option governs (arrival order, empty calls ...) is not C15's to judge
         violations.append({'property': 'C15', 'oracle': 'deco.option_ineffective:' + v['oracle'],
                            'signature': 'an option given to the options form did not take effect',
                            'detail': f'{prog["which"]} (options form): {v["detail"]}', 'features': {'which': prog['which']}})
